@@ -184,7 +184,7 @@ fn gen_scenario(rng: &mut Rng) -> Scenario {
     if !remote.is_empty() && rng.chance(1, 2) {
         // hold and one-way partitions are not mixed (documented as unsupported); a full partition
         // of a held link is fine: it drops what the hold kept back
-        let kind = rng.below(5);
+        let kind = rng.below(6);
         let part = kind < 2;
         for _ in 0..rng.usize(1, 2) {
             let h = *rng.pick(&remote);
@@ -203,6 +203,11 @@ fn gen_scenario(rng: &mut Rng) -> Scenario {
                         script.push((s3 + 1, LinkAct::Release(h, 0)));
                     }
                 }
+            } else if kind == 5 {
+                // hold, then repair (which does not let go of what the hold kept back), then release
+                script.push((s1, LinkAct::Hold(h, 0)));
+                script.push((s2, LinkAct::Repair(h, 0)));
+                script.push((s2 + rng.range(1, 6 + 2 * lat) as u32, LinkAct::Release(h, 0)));
             } else if part {
                 script.push((s1, if rng.chance(1, 2) { LinkAct::Partition(h, 0) } else { LinkAct::PartitionOneway(h, 0) }));
                 if rng.chance(3, 4) {
@@ -730,6 +735,8 @@ fn dir_state(recs: &[Rec], h: usize, t3: u64) -> DirState {
             }
             match a {
                 LinkAct::Hold(..) => st = DirState::Held,
+                // (a repair of a held link makes it healthy for new messages; what the hold kept back stays
+                // held until a release — see `still_held`)
                 LinkAct::Release(..) | LinkAct::Repair(..) => st = DirState::Healthy,
                 LinkAct::Partition(..) => st = DirState::Partitioned,
                 LinkAct::PartitionOneway(from, _) if *from == h => st = DirState::Partitioned,
@@ -739,6 +746,15 @@ fn dir_state(recs: &[Rec], h: usize, t3: u64) -> DirState {
         }
     }
     st
+}
+
+/// A request sent at `from` while the link was held is kept back until the link is released or
+/// partitioned; a repair alone does not let go of it.
+fn still_held(recs: &[Rec], h: usize, from: u64, until: u64) -> bool {
+    if dir_state(recs, h, from) != DirState::Held {
+        return false;
+    }
+    !recs.iter().any(|r| r.t3 > from && r.t3 <= until && matches!(&r.ev, Ev::Act(LinkAct::Release(a, b) | LinkAct::Partition(a, b)) if (*a == h && *b == 0) || (*a == 0 && *b == h)))
 }
 
 fn held_within(recs: &[Rec], h: usize, from: u64, to: u64) -> bool {
@@ -1120,7 +1136,7 @@ fn judge(sc: &Scenario, o: &Outcome, probes: &mut Counters) -> (Option<Violation
                     probes.inc("cancelled_before_refusal");
                 }
                 Res::Pending => {
-                    let held_now = !ignore_hold && c.host != 0 && dir_state(recs, c.host, u64::MAX) == DirState::Held;
+                    let held_now = !ignore_hold && c.host != 0 && (dir_state(recs, c.host, u64::MAX) == DirState::Held || still_held(recs, c.host, ci[x].start_t3, u64::MAX));
                     if !held && !held_now && end_step > *deadline {
                         return (Some(Violation::new("Hang", format!("connector {x}: {why}; the connect is still pending at step {end_step} (end of the run, nothing moves), it should have been refused by step {deadline}"))), false);
                     }
